@@ -102,6 +102,11 @@ CHECKS.update({
         "note": TRUST + " For fixed-duration actions the compiler emits no end event, so the end-event clause is exercised on variable-duration actions inside the stated zone (signatures carry |variable-duration).",
         "technique": "TLA+ declarative plan conversions checked by TLC + recorded forward/back conversions judged on TLC-enumerated and seeded plans",
     },
+    "C32": {
+        "text": "Factory.tla: declarative Select (the first engine in preference order that implements the mode, supports the kind and every requested requirement; none <=> no-suitable-engine error; pipelines thread the resulting kinds) and an implementation-shaped layer mirroring _engine_satisfies_conditions / _get_engine_class / the pipeline loop; T1: TLC checks them equal on exhaustive small registries. TLC enumerates requests (kind x operation mode x compilation kind / plan kind / optimality / anytime guarantee, pipelines, mock capability configurations and preference-list schemes); the registry (supported kinds, plan kinds, guarantees, resulting kinds) is READ FROM THE REAL CLASSES; every request goes through the real public entry points on fresh Environments with harness-registered mock engines; FactoryJudge judges the returned engine or exception.",
+        "note": TRUST + " Only UP's own engines plus harness mocks are registered (no external planner in this sandbox).",
+        "technique": "TLA+ selection model (TLC, two layers) + exhaustive TLC-enumerated requests replayed through the real Factory and judged",
+    },
     "C33": {
         "text": "T1: TLC checks the lattice laws of ProblemKindLattice (order, lub/glb, hash key, upgrade monotone, tables well-formed) instantiated with the REAL version tables read from problem_kind_versioning. T2/T3: every TLC-enumerated ordered pair of kinds over a 6-feature universe with deprecated and version-2/3 features x versions (thorough: more universes, same-version triples) is run on real ProblemKind objects; each operand's version, features and hash are recorded before and after every query (comparisons are query steps: operands unchanged) and judged by ProblemKindLatticeTrace.",
         "note": TRUST + " The 7-feature universe is in the thorough tier only.",
